@@ -48,6 +48,7 @@ def check(tier, seed):
     with C.WorkDir('C05') as wd:
         C.audit_sources()
         C.props_obligations(res, 'C05', wd)
+        C.tie_b_request(res, wd)
         cases = RC.run_suite(res, 'C05', tier, seed, 250, 8000, oracle=S.bounds_oracle)
         # endless traffic
         from .. import reflect as R
